@@ -12,7 +12,8 @@
   The session-level theorems are for sessions without add-path (`effective_max = 1`); the add-path
   branch is covered by the correspondence stream only.
 -/
-import Rbgp.Export.ConvHistory
+import Rbgp.Export.ConvMaster
+import Rbgp.Export.RibIds
 namespace Rbgp.Export.Props01
 open Rbgp.Export Rbgp.Export.Conv
 
@@ -46,6 +47,29 @@ theorem withdrawal_survives_id_reuse (p : PendingTx) (d : Nat) (net old : Net) (
     (nh : Option Nh) (as : Attrs) (h : lookup (p.key d pid) p.unreach = some old) (hne : old ≠ net) :
     ((p.key d pid).2, old) ∈ (p.doReach d net pid nh as).stray :=
   Conv.withdrawal_survives_id_reuse p d net old pid nh as h hne
+
+/-! ## destid_stable (RIB model: `Table::insert`, `Table::remove`) -/
+
+/-- the empty table is consistent (prefixes distinct, ids distinct, `used` = the ids in use) -/
+theorem destid_stable_init (idx : Nat) : RibIds.ShardOk { idx := idx } := RibIds.init_ok idx
+
+/-- insertion keeps the table consistent, so a new prefix gets an id no other prefix holds (lowest
+    free), and every prefix already present keeps its id -/
+theorem destid_stable_insert (s : Shard) (h : RibIds.ShardOk s) (hroom : s.used.length + 1 < 16777216)
+    (net : Net) (srcIdx : Nat) (src : Source) (rpid : Nat) (nh : Option Nh) (attrs : Attrs) (aid : Nat) :
+    RibIds.ShardOk (s.insert net srcIdx src rpid nh attrs aid).1 ∧
+    (∀ d ∈ s.dests, ∃ d' ∈ (s.insert net srcIdx src rpid nh attrs aid).1.dests, d'.net = d.net ∧ d'.id = d.id) :=
+  RibIds.insert_ok s h hroom net srcIdx src rpid nh attrs aid
+
+/-- a withdrawal keeps the table consistent and touches no other prefix; the prefix keeps its id, or
+    the id is released and the emitted change names that id and carries no paths -/
+theorem destid_stable_remove (s : Shard) (h : RibIds.ShardOk s) (net : Net) (src : Source) (rpid : Nat) :
+    RibIds.ShardOk (s.remove net src rpid).1 ∧
+    (∀ d ∈ s.dests, d.net ≠ net → d ∈ (s.remove net src rpid).1.dests) ∧
+    (∀ d ∈ s.dests, d.net = net →
+       (∃ d' ∈ (s.remove net src rpid).1.dests, d'.net = net ∧ d'.id = d.id) ∨
+       (∃ ch, (s.remove net src rpid).2 = some ch ∧ ch.net = net ∧ ch.destId = d.id ∧ ch.paths = [])) :=
+  RibIds.remove_ok s h net src rpid
 
 /-! ## export_invariant: every step of an established session keeps `SInv` -/
 
@@ -99,6 +123,63 @@ theorem withdraw_on_wire (sess : Sess) (hm : sess.max = 1) (rib0 : Rib) (h0 : Sn
     Mirror.get (runS (establish sess rib0) evs).flush.mirror net 0 = none :=
   Conv.withdraw_on_wire sess hm rib0 h0 evs hadm hfresh net hgone
 
+/-! ## master theorem over the composed model -/
+
+/-- The C01 reference checker accepts every run of the composed model (RIB, change queue, session,
+    flushes, fresh dump) whose computed hypotheses hold: `Conv.okRun c` = the session has no add-path,
+    no LLGR stale period starts, every delivered change is admissible for the session's view, every
+    soft reset walks a snapshot of the view's destinations, no policy change is left without its soft
+    reset, and the final RIB snapshot is consistent, carries the view's best paths and only announced
+    prefixes.  The driver evaluates `okRun` on every generated case. -/
+theorem check_run_ok (c : Case01) (h : Conv.okRun c = true) : Spec01.check c (run01 c) = .ok :=
+  Conv.check_run_ok c h
+
+/-- the full-strength statement: every history, every schedule, every configuration -/
+def C01_full : Prop := ∀ c : Case01, Spec01.check c (run01 c) = .ok
+
+def ebgpSrc : Source := ⟨.peer, .v4 167772162, 65002, 65001, 33686018, .ebgp, false⟩
+def nbr (mx : Nat) : Sess := ⟨⟨.ebgp, 65001, .v4 167772417, none, 0⟩, .v4 167772161, none, none, .ipv4, mx⟩
+def as0 : Attrs := [.val 1 0, .aspath [(2, [65010])]]
+def as2 : Attrs := [.val 1 2, .aspath [(2, [65010])]]
+
+/-- S31's history (a freed destination id is re-used before the flush) -/
+def caseReuse : Case01 :=
+  { shards := 1, sess := nbr 1, srcs := [ebgpSrc], pfxs := [((167837696, 24), 0), ((167837952, 24), 0)],
+    asets := [as0], pols := [], pre := [],
+    ops := [.ann 0 0 0 0 (.v4 167772418), .deliver 1, .flush, .wd 0 0 0, .ann 0 1 0 0 (.v4 167772418),
+            .deliver 2, .flush] }
+
+/-- non-vacuity of the master theorem: the repaired model converges on the id re-use history, and the
+    hypothesis is computed, not assumed -/
+example : Conv.okRun caseReuse = true := by decide
+example : (run01 caseReuse).reuse = 1 := by decide
+example : Spec01.check caseReuse (run01 caseReuse) = .ok := check_run_ok caseReuse (by decide)
+
+/-- S36's history (open finding): a soft reset re-walks the RIB while the withdrawal of 10.1.0.0/24 is
+    still queued; its destination id was re-used by 10.1.1.0/24, which the new policy rejects -/
+def caseOvertake : Case01 :=
+  { shards := 1, sess := nbr 1, srcs := [ebgpSrc], pfxs := [((167837696, 24), 0), ((167837952, 24), 0)],
+    asets := [as2, as0],
+    pols := [some { cond := some 0, nh := none, med := none, comm := [], disp := .reject, dflt := .accept }],
+    pre := [.ann 0 0 0 0 (.v4 167772418)],
+    ops := [.reset (some 0), .wd 0 0 0, .ann 0 1 0 1 (.v4 167772418), .deliver 1] }
+
+/-- the model of the current code does not satisfy the full-strength statement: the neighbour keeps
+    10.1.0.0/24, a brand-new session is sent nothing -/
+theorem C01_full_fails : ¬ C01_full := by
+  intro h
+  have := h caseOvertake
+  revert this
+  decide
+
+/-- the hypothesis of the master theorem does exclude that history -/
+example : Conv.okRun caseOvertake = false := by decide
+example : (run01 caseOvertake).overtaken = 1 := by decide
+
+#print axioms destid_stable_insert
+#print axioms destid_stable_remove
+#print axioms check_run_ok
+#print axioms C01_full_fails
 #print axioms pending_last_writer_wins
 #print axioms withdrawal_survives_id_reuse
 #print axioms export_invariant_establish
